@@ -19,6 +19,12 @@ EXTENDS Updates, IOUtils, Json, Randomization, SequencesExt
 
 E(k, n, L, T, un, smp) == [k |-> k, n |-> n, L |-> L, T |-> T, un |-> un, smp |-> smp]
 
+\* kind "group" (mputil.Group on a way listed by m members): smp = 0 every list of exactly L updates, every t,
+\* every list of exactly m members that are the way (outer / inner, CW / CCW / not oriented); smp > 0 samples with
+\* members drawn from all MemberChoices (also missing ways, node members, other roles)
+G(n, L, T, m, smp) == [k |-> "group", n |-> n, L |-> L, T |-> T, un |-> 0, smp |-> smp, m |-> m]
+WayMembers == {mc \in MemberChoices : mc.tgt = "way" /\ mc.role # "via"}
+
 \* all list lengths 0 .. L, one entry per length
 Lens(k, n, L, T, un) == [l \in 1 .. L + 1 |-> E(k, n, l - 1, T, un, 0)]
 
@@ -30,6 +36,7 @@ QuickPlan ==
   \o Lens("relation", 1, 2, 2, 0) \o Lens("relation", 2, 2, 2, 0) \o Lens("relation", 3, 2, 2, 0)
   \o << E("way", 3, 4, 3, 0, 700), E("way", 4, 5, 3, 0, 700), E("way", 3, 5, 3, 3, 300),
         E("relation", 3, 4, 3, 0, 500), E("relation", 4, 5, 3, 0, 500) >>
+  \o << G(2, 0, 2, 2, 0), G(2, 1, 2, 2, 0), G(3, 3, 3, 3, 400) >>
 
 ThoroughPlan ==
      OwnLens("way", 1, 2, 3, 0) \o << E("way", 2, 2, 2, 0, -1), E("relation", 1, 1, 3, 0, -1) >>
@@ -39,12 +46,18 @@ ThoroughPlan ==
   \o << E("relation", 3, 3, 2, 0, 0) >>
   \o << E("way", 3, 4, 3, 0, 10000), E("way", 4, 5, 4, 0, 10000), E("way", 4, 5, 3, 0, 5000), E("way", 4, 5, 3, 2, 3000),
         E("relation", 4, 5, 4, 0, 10000), E("relation", 3, 4, 3, 0, 5000) >>
+  \o << G(2, 0, 2, 2, 0), G(2, 1, 2, 2, 0), G(2, 2, 2, 2, 0), G(2, 1, 3, 3, 0), G(3, 3, 3, 3, 3000), G(4, 4, 3, 4, 2000) >>
 
 CONSTANT Plan
 
 DrawOwn(T) == RandomElement(OwnChoices(T))
+GroupEntryCases(e) ==
+  IF e.smp = 0 THEN GroupCasesExact(e.n, e.L, e.T, e.m, WayMembers, DrawOwn)
+  ELSE {GroupCase(e.n, e.L, e.T, 0, f, RandomElement(0 .. e.T), [i \in 1 .. e.m |-> RandomElement(MemberChoices)], DrawOwn(e.T)) :
+          f \in RandomSubset(e.smp, [1 .. e.L -> Choice("way", e.n, e.T)])}
 EntryCases(e) ==
-  IF e.smp = -1 THEN CasesExactOwn(e.k, e.n, e.L, e.T, e.un)
+  IF e.k = "group" THEN GroupEntryCases(e)
+  ELSE IF e.smp = -1 THEN CasesExactOwn(e.k, e.n, e.L, e.T, e.un)
   ELSE IF e.smp = 0 THEN CasesExact(e.k, e.n, e.L, e.T, e.un, DrawOwn)
   ELSE {Case(e.k, ChildrenOf(e.k, e.n, e.un), MkList(f), RandomElement(Pairs(e.T)), e.T, DrawOwn(e.T)) :
           f \in RandomSubset(e.smp, [1 .. e.L -> Choice(e.k, e.n, e.T)])}
